@@ -2,7 +2,7 @@
 import itertools, json, math
 from xvlib import *
 
-HCONSTS = {'AbsInit': '<-RegInit', 'AbsCfg': '<-RegCfg', 'AbsStep': '<-RegStep', 'AbsFinal': '<-RegFinal'}
+HCONSTS = {'AbsInit': '<-RegInit', 'AbsCfg': '<-RegCfg', 'AbsStep': '<-RegStep', 'AbsFinal': '<-RegFinal', 'AbsEv': '<-NoEv'}
 
 
 def mc_consts(**kw):
